@@ -297,16 +297,63 @@ func Lock(m mutexLike, site string) {
 	}
 	a := addrOf(m)
 	yieldEv(evYield, a)
+	// sync.RWMutex: a Lock call that has to wait keeps new readers out until it has had its turn; the try-lock loop
+	// alone would let readers stream past a waiting writer, and a reader that takes the read lock a second time
+	// behind a waiting writer (a deadlock of the real lock) would go unnoticed
+	_, isRW := m.(rwMutexLike)
+	waiting := false
 	for !m.TryLock() {
 		if !isActive() { // aborted while waiting
+			if waiting {
+				wwaitAdd(a, -1)
+			}
 			m.Lock()
 			return
 		}
+		if isRW && !waiting {
+			waiting = true
+			wwaitAdd(a, 1)
+		}
 		yieldEv(evBlocked, a)
+	}
+	if waiting {
+		wwaitAdd(a, -1)
 	}
 	// a second scheduling point with the lock held: the others may now run into the held lock (and see a TryLock
 	// fail, or queue up behind it), as they do when the holder is preempted inside its critical section
 	yieldEv(evYield, a)
+}
+
+// writers waiting per RWMutex address; read and written only by the client that holds the run token
+type wwait struct {
+	addr uint64
+	n    int
+}
+
+var wwaits []wwait
+
+//go:norace
+func wwaitReset() { wwaits = nil }
+
+//go:norace
+func wwaitAdd(a uint64, d int) {
+	for i := range wwaits {
+		if wwaits[i].addr == a {
+			wwaits[i].n += d
+			return
+		}
+	}
+	wwaits = append(wwaits, wwait{a, d})
+}
+
+//go:norace
+func wwaitN(a uint64) int {
+	for i := range wwaits {
+		if wwaits[i].addr == a {
+			return wwaits[i].n
+		}
+	}
+	return 0
 }
 
 // Unlock replaces m.Unlock().
@@ -325,7 +372,7 @@ func RLock(m rwMutexLike, site string) {
 	}
 	a := addrOf(m)
 	yieldEv(evYield, a)
-	for !m.TryRLock() {
+	for wwaitN(a) > 0 || !m.TryRLock() {
 		if !isActive() {
 			m.RLock()
 			return
@@ -394,6 +441,7 @@ func Run(clients []func(), schedule []uint16, maxSteps int) *RunResult {
 	lastGrant = make([]int64, maxTasks)
 	onceReset()
 	chanReset()
+	wwaitReset()
 	condReset()
 	{
 		h := uint64(1469598103934665603)
